@@ -46,7 +46,7 @@ func RunJob(j *Job) {
 	var so, se strings.Builder
 	cmd.Stdout = &so
 	cmd.Stderr = &se
-	cmd.SysProcAttr = &syscall.SysProcAttr{Setpgid: true}
+	cmd.SysProcAttr = &syscall.SysProcAttr{Setpgid: true, Pdeathsig: syscall.SIGKILL}
 	if err := cmd.Start(); err != nil {
 		j.Err = err
 		j.ExitCode = -1
